@@ -212,3 +212,122 @@ func CorpusQueries(withNeighbourhood bool) []Query {
 	}
 	return out
 }
+
+// TailFamily crosses a few reading clauses with projections (plain, aggregating, aggregates nested in expressions,
+// path functions) and result modifiers (DISTINCT, ORDER BY, SKIP, LIMIT): the shapes the projection side of the
+// translator and its fast paths (count store, limit pushdown, aggregate traversal counts, collect membership) decide on.
+func TailFamily() []Query {
+	type base struct {
+		name, text string
+		path       bool
+	}
+	bases := []base{
+		{"node", "MATCH (m)", false},
+		{"kind-node", "MATCH (m:NodeKind1)", false},
+		{"out", "MATCH (n)-[r]->(m)", false},
+		{"in", "MATCH (n)<-[r]-(m)", false},
+		{"undirected", "MATCH (n)-[r]-(m)", false},
+		{"anonymous-out", "MATCH ()-[r]->()", false},
+		{"anonymous-undirected", "MATCH ()-[r]-()", false},
+		{"anonymous-undirected-kind", "MATCH ()-[r:EdgeKind1]-()", false},
+		{"kinds", "MATCH (n:NodeKind1)-[r:EdgeKind1]->(m)", false},
+		{"expansion", "MATCH (n)-[:EdgeKind1*1..]->(m)", false},
+		{"two-matches", "MATCH (n:NodeKind1) MATCH (n)-[:EdgeKind1*1..]->(m:NodeKind2)", false},
+		{"path", "MATCH p = (n)-[r]->(m)", true},
+		{"path-two-steps", "MATCH p = (n)-[:EdgeKind1*0..]->(:NodeKind2)-[:EdgeKind2]->(m:NodeKind1) WHERE m.name = 'a'", true},
+		{"path-expansion", "MATCH p = (n)-[:EdgeKind1*1..2]->(m)", true},
+	}
+	type proj struct {
+		name, text string
+		orderKey   string // an ORDER BY key that makes sense for this projection ("" = none)
+		needs      string // variables the projection mentions besides m
+	}
+	projs := []proj{
+		{"m", "m", "id(m)", ""},
+		{"m.name", "m.name", "m.name", ""},
+		{"n,m", "n, m", "id(n), id(m)", "n"},
+		{"count(m)", "count(m)", "", ""},
+		{"count(r)", "count(r)", "", "r"},
+		{"count(*)", "count(*)", "", ""},
+		{"count(distinct m)", "count(DISTINCT m)", "", ""},
+		{"count(m)+1", "count(m) + 1", "", ""},
+		{"collect(m.name)", "collect(m.name)", "", ""},
+		{"size(collect(m.name))", "size(collect(m.name))", "", ""},
+		{"sum(m.v)", "sum(m.v)", "", ""},
+		{"min-max", "min(m.v), max(m.v)", "", ""},
+		{"n,count(m)", "n, count(m) AS c", "c, id(n)", "n"},
+		{"n,count(m) by count", "n, count(m) AS c", "c", "n"},
+		{"n.name,collect", "n.name, collect(m.name)", "n.name", "n"},
+		{"length(p)", "length(p)", "length(p)", "p"},
+		{"relationships(p)", "relationships(p)", "", "p"},
+		{"nodes(p)", "nodes(p)", "", "p"},
+		{"p", "p", "", "p"},
+	}
+	tails := []struct{ name, text string }{
+		{"", ""}, {"limit", " LIMIT 1"}, {"skip", " SKIP 1"},
+		{"order", " ORDER BY %s"}, {"order-desc", " ORDER BY %s DESC"},
+		{"order-limit", " ORDER BY %s LIMIT 1"}, {"order-desc-limit", " ORDER BY %s DESC LIMIT 1"},
+		{"order-skip", " ORDER BY %s SKIP 1"},
+	}
+	var out []Query
+	for _, b := range bases {
+		for _, p := range projs {
+			if p.needs == "p" && !b.path {
+				continue
+			}
+			if (p.needs == "n" || p.needs == "r") && !strings.Contains(b.text, "("+p.needs) && !strings.Contains(b.text, "["+p.needs) {
+				continue
+			}
+			if !strings.Contains(b.text, "(m") && p.text != "count(*)" && p.text != "count(r)" {
+				continue
+			}
+			for _, t := range tails {
+				if strings.Contains(t.text, "%s") && p.orderKey == "" {
+					continue
+				}
+				for _, distinct := range []string{"", "DISTINCT "} {
+					if distinct != "" && (t.name != "" || strings.Contains(p.text, "(")) {
+						continue
+					}
+					tail := t.text
+					if strings.Contains(tail, "%s") {
+						keys := strings.Split(p.orderKey, ", ")
+						if strings.Contains(tail, "DESC") {
+							for i := range keys {
+								keys[i] += " DESC"
+							}
+							tail = strings.Replace(tail, "%s DESC", strings.Join(keys, ", "), 1)
+						} else {
+							tail = fmt.Sprintf(tail, strings.Join(keys, ", "))
+						}
+					}
+					text := b.text + " RETURN " + distinct + p.text + tail
+					feats := []string{"base:" + b.name, "projection:" + p.name}
+					if t.name != "" {
+						feats = append(feats, "tail:"+t.name)
+					}
+					if distinct != "" {
+						feats = append(feats, "distinct")
+					}
+					out = append(out, Query{Text: text, Params: DefaultParams, Source: "tail-family", Features: feats})
+				}
+			}
+		}
+	}
+	// aggregation carried through WITH, then ordered and limited; collections carried through WITH and tested with IN
+	for _, t := range []string{
+		"MATCH (n:NodeKind1) MATCH (n)-[:EdgeKind1*1..]->(m:NodeKind2) WITH n, count(m) AS c RETURN n, c ORDER BY c ASC LIMIT 1",
+		"MATCH (n:NodeKind1) MATCH (n)-[:EdgeKind1*1..]->(m:NodeKind2) WITH n, count(m) AS c RETURN n, c ORDER BY c DESC LIMIT 1",
+		"MATCH (n:NodeKind1) MATCH (n)-[:EdgeKind1*1..]->(m:NodeKind2) WITH n, count(m) AS c RETURN n, c ORDER BY c DESC",
+		"MATCH (n:NodeKind1) MATCH (n)-[:EdgeKind1*1..]->(m:NodeKind2) WITH n, count(m) AS c RETURN n, c ORDER BY c",
+		"MATCH (n:NodeKind1) MATCH (n)-[:EdgeKind1*1..]->(m:NodeKind2) WITH n, count(m) AS c WHERE c > 1 RETURN n, c",
+		"MATCH (n:NodeKind1) WITH collect(n) AS ns MATCH (m:NodeKind2) WHERE m IN ns RETURN m",
+		"MATCH (n:NodeKind1) WITH collect(n) AS ns MATCH (m:NodeKind2) WHERE m IN ns RETURN m, ns",
+		"MATCH (n:NodeKind1) WITH collect(n) AS ns MATCH (m:NodeKind2) WHERE NOT m IN ns RETURN m, size(ns)",
+		"MATCH (n:NodeKind1) WITH collect(n) AS ns MATCH (m:NodeKind2) WHERE m IN ns WITH m, ns RETURN ns, m.name",
+		"MATCH (n:NodeKind1) WITH collect(n) AS ns MATCH (m)-[:EdgeKind1]->(o) WHERE m IN ns RETURN o, ns",
+	} {
+		out = append(out, Query{Text: t, Params: DefaultParams, Source: "tail-family", Features: []string{"with:" + t}})
+	}
+	return out
+}
